@@ -61,6 +61,7 @@ func init() {
 	register("C12", "fault_enumeration", 4, 16, 20, 500, 10*time.Minute, 60*time.Minute, eng.RunClose)
 	register("C13", "exploration", 2, 8, 5000, 100000, 5*time.Minute, 30*time.Minute, eng.RunCodec)
 	register("C15", "exploration", 3, 6, 6, 30, 12*time.Minute, 60*time.Minute, eng.RunRaces)
+	register("C17", "exploration", 1, 1, 10, 10, 5*time.Minute, 10*time.Minute, eng.RunBinding)
 	register("C18", "exploration", 4, 16, 4, 40, 8*time.Minute, 60*time.Minute, eng.RunResidue)
 }
 
